@@ -23,30 +23,56 @@ PROBE_INTS = [0, 1, 3, -1, -2, -4, 7, -8]
 
 
 # ---- canonical rendering --------------------------------------------------------------------
+def dtype_code(dt):
+    """'' for float64 (the default), else numpy's type string without the byte-order mark: f4 i4 i8 b1 O U2 M8[s]"""
+    dt = np.dtype(dt)
+    return "" if dt == np.float64 else dt.str[1:]
+
+
 def render_data(d):
+    """D<shape><dtype code>:<cells>  -  shape = n for a 1-D array, n x m for 2-D, '0d' for a 0-d array; the dtype code
+    is empty for float64.  An array without elements is 'D0:<dtype code>' (the model's nan_like keeps it as it is), an
+    all-NaN array '...:nan'.  The text in front of the colon is what Items.nan_like keeps of the first curve's data for
+    get(add=True): np.asarray(data) * nan keeps shape and dtype of every floating dtype."""
     if d is None:
         return "-"
     a = np.asarray(d)
-    n = a.shape[0] if a.ndim else 1
-    if n == 0:
-        return "D0:"
+    code = dtype_code(a.dtype)
+    if a.ndim == 1 and a.shape[0] == 0:
+        return "D0:" + code
+    head = "D" + ("x".join(str(k) for k in a.shape) if a.ndim else "0d") + code
+    flat = a.ravel()
     try:
-        if np.all(np.isnan(a.astype(float))):
-            return "D%d:nan" % n
-        return "D%d:%s" % (n, ",".join(str(int(x)) for x in a))
+        if flat.size and np.all(np.isnan(flat.astype(float))):
+            return head + ":nan"
+        return head + ":" + ",".join(str(int(x)) for x in flat)
     except (TypeError, ValueError):
-        return "D%d:%s" % (n, ",".join(str(x) for x in a))
+        return head + ":" + ",".join(str(x) for x in flat)
 
 
 def parse_data(s):
+    """inverse of render_data for the arrays the generators write (numbers, text, datetime64[s] given as seconds)"""
+    import re
     if s == "-":
         return None
-    body = s.split(":", 1)[1]
-    if body == "":
-        return np.array([], dtype=float)
-    if body == "nan":
-        return np.array([np.nan] * int(s[1:s.index(":")]))
-    return np.array([float(x) for x in body.split(",")])
+    head, body = s[1:].split(":", 1)
+    if head == "0":
+        return np.array([], dtype=np.dtype(body) if body else float)
+    m = re.match(r"^(0d|[0-9]+(?:x[0-9]+)*)(.*)$", head)
+    shape = () if m.group(1) == "0d" else tuple(int(k) for k in m.group(1).split("x"))
+    code = m.group(2)
+    size = int(np.prod(shape)) if shape else 1
+    cells = [np.nan] * size if body == "nan" else body.split(",")
+    if code.startswith("U"):
+        a = np.array([str(x) for x in cells], dtype=code)
+    elif code.startswith("M8"):
+        a = np.array([int(x) for x in cells], dtype="i8").astype(code)
+    elif code == "O":
+        a = np.empty(size, dtype=object)
+        a[:] = [float(x) for x in cells]
+    else:
+        a = np.array([float(x) for x in cells]).astype(np.dtype(code) if code else float)
+    return a.reshape(shape)
 
 
 def render_item(it):
@@ -97,10 +123,12 @@ class Sim:
         self.curve = curve
 
     def mk(self, name, val, dat):
+        """every item carries distinguishable unit and descr tags derived from its value tag (ItemsObs.mk does the
+        same), so that a unit/descr mix-up (get() with an item default, set_item, __reduce__) shows"""
         from lasio import CurveItem, HeaderItem
         if self.curve:
-            return CurveItem(name, value=val, data=parse_data(dat))
-        return HeaderItem(name, value=val)
+            return CurveItem(name, unit="u" + val, value=val, descr="d" + val, data=parse_data(dat))
+        return HeaderItem(name, unit="u" + val, value=val, descr="d" + val)
 
     def apply(self, f):
         s = self.s
@@ -293,16 +321,51 @@ class OpGen:
 
     def item_args(self, name):
         self.n += 1
-        return [name, "v%d" % self.n, ("D2:%d,%d" % (self.n, self.n)) if self.curve else "-"]
+        return [name, "v%d" % self.n, self.data_arg() if self.curve else "-"]
+
+    def data_arg(self):
+        """curve arrays of the floating dtypes (np.asarray(data) * nan keeps their dtype and shape, which is what the
+        model's nan_like assumes), 1-D, 2-D and empty; with all_dtypes (implementation side only, C17) also int32,
+        int64, bool, datetime64, object and text arrays"""
+        n = self.n
+        if getattr(self, "all_dtypes", False):
+            k = n % 12
+            if k == 5:
+                return "D2i4:%d,%d" % (n, n)
+            if k == 6:
+                return "D2i8:%d,%d" % (n, n)
+            if k == 7:
+                return "D2b1:1,0"
+            if k == 8:
+                return "D2M8[s]:%d,%d" % (n, n + 60)
+            if k == 9:
+                return "D2O:%d,%d" % (n, n)
+            if k == 10:
+                return "D2U2:a%d,b" % (n % 10)
+            if k == 11:
+                return "D0:i4"
+        k = n % 6
+        if k == 1:
+            return "D2f4:%d,%d" % (n, n)
+        if k == 3:
+            return "D1x2:%d,%d" % (n, n)
+        if k == 4:
+            return "D2x1f4:%d,%d" % (n, n)
+        if k == 5 and n % 12 == 5:
+            return "D0:f4"
+        return "D2:%d,%d" % (n, n)
 
     def val(self):
         self.n += 1
         return "p%d" % self.n
 
 
-def instantiate(templates, curve):
-    """templates: list of tuples; ('a', name) etc. with item args filled in freshly."""
+def instantiate(templates, curve, all_dtypes=False, start=0):
+    """templates: list of tuples; ('a', name) etc. with item args filled in freshly.  all_dtypes / start: see
+    OpGen.data_arg (arrays of every dtype, implementation side only; start = first value of the tag counter)"""
     g = OpGen(curve)
+    g.all_dtypes = all_dtypes
+    g.n = start
     return [instantiate_one(t, g) for t in templates]
 
 
@@ -479,13 +542,41 @@ def useful(name):
     return "UNKNOWN" if name.strip() == "" else name
 
 
+GEN_SUFFIX = r"^(.*):([1-9][0-9]*)$"      # what  useful + ":%d" % n  (n >= 1) can produce: "A:01", "A:0" are not generated
+
+
 def has_suffix_clash(names, tr=True):
-    """a literal  u:<digits>  original together with a name whose useful mnemonic is u (case
-    ignored: the broad signature, independent of the section's comparison mode)"""
+    """Names-only pre-filter (a statistic, NOT the signature of the finding: see clash_pairs): a literal
+    u:<k>  (k spelled as "%d" prints it) together with a name whose useful mnemonic is u, compared the way the
+    section compares names: upper-cased when mnemonic_transforms is on (tr), exactly otherwise."""
     import re
-    us = {useful(n).upper() for n in names}
+    nm = (lambda x: x.upper()) if tr else (lambda x: x)
+    us = {nm(useful(n)) for n in names}
     for n in names:
-        m = re.match(r"^(.*):([0-9]+)$", n, re.S)
-        if m and m.group(1).upper() in us:
+        m = re.match(GEN_SUFFIX, n, re.S)
+        if m and nm(m.group(1)) in us:
             return True
     return False
+
+
+def clash_pairs(s):
+    """The known finding suffix-clash as it shows in ONE state of a section: the set of position pairs (i, j),
+    i < j, of two items whose session names are equal the way the section compares them (upper-cased when
+    mnemonic_transforms is on, exactly otherwise), one of the two being LITERALLY its original name  u:<k>
+    (session == original, k spelled as "%d" prints it) and the other an item named u (useful mnemonic, same
+    comparison) that carries the generated suffix  :<k>.  "A:01" next to A, A is no clash: no suffix is spelled
+    that way."""
+    import re
+    lst = list(list.__iter__(s))
+    nm = (lambda x: x.upper()) if s.mnemonic_transforms else (lambda x: x)
+    out = set()
+    for i, x in enumerate(lst):
+        m = re.match(GEN_SUFFIX, x.original_mnemonic, re.S)
+        if not m or x.mnemonic != x.original_mnemonic:
+            continue
+        for j, y in enumerate(lst):
+            uy = useful(y.original_mnemonic)
+            if (j != i and y.mnemonic == uy + ":" + m.group(2) and nm(uy) == nm(m.group(1))
+                    and nm(y.mnemonic) == nm(x.mnemonic)):
+                out.add((min(i, j), max(i, j)))
+    return out
